@@ -100,6 +100,12 @@ def sub_blocks(s):
 
 # ---------------------------------------------------------------------------------------------------------------
 # model of the lookup rule, used ONLY to choose spellings (what the build really bound is checked via the values)
+# Build mode never sees a definition inside an untaken branch or a loop that runs zero times; the analysis mode of the language
+# server does. Monitors that only judge builds let such definitions be invisible (a plain name may then be spelled past
+# them); the others keep the conservative spelling that is right in both modes. Set from the `dead_defs_invisible` knob.
+DEAD_DEFS_INVISIBLE = False
+
+
 def _down(scope, path):
     """Resolve path (list of names, may contain 'super') downward from scope. Returns Def | Scope | None."""
     cur = scope
@@ -111,7 +117,7 @@ def _down(scope, path):
             continue
         last = i == len(path) - 1
         if last:
-            if name in cur.defs:
+            if name in cur.defs and not (DEAD_DEFS_INVISIBLE and not cur.defs[name].live):
                 return cur.defs[name]
             return None
         cur = cur.named.get(name)
@@ -209,11 +215,22 @@ class Gen:
         self.exports = {}         # Def -> spelled path (list of names) in the importing scope
 
     # ---- names
-    def fresh_name(self, scope, allow_shadow=True):
+    def fresh_name(self, scope, allow_shadow=True, prefer_shadow=False):
         rng = self.rng
+        if prefer_shadow and rng.random() < 0.6:
+            # (for a definition in an untaken branch) the name of a definition that is visible from here: a reference to that
+            # one must not be captured by the definition that is never assembled
+            outer = [n for a in scope.chain()[1:] for n, d in a.defs.items() if d.kind in ("label", "const") and n not in scope.defs and n not in scope.named]
+            if outer:
+                return rng.choice(outer)
         if scope.kind == "import":
             # top-level names of an imported file are exported into the importing scope by `*`: keep them unique
             return self.unique_name("i")
+        if allow_shadow and scope.parent is not None and scope.kind not in ("import", "macro") and self.macros and rng.random() < self.k.get("p_macro_name_clash", 0.08):
+            # a label/constant that has the name of a macro: invocations from inside this scope must still find the macro
+            n = rng.choice(self.macros).d.name
+            if n not in scope.defs and n not in scope.named:
+                return n
         for _ in range(50):
             n = rng.choice(NAMES)
             if rng.random() < 0.3:
@@ -319,7 +336,7 @@ class Gen:
             elif r < 0.47:
                 out.append(self.gen_text(scope))
             elif r < 0.57 and not in_loop:
-                nm = self.fresh_name(scope)
+                nm = self.fresh_name(scope, prefer_shadow=not live and DEAD_DEFS_INVISIBLE)
                 d = Def(nm, "label", scope)
                 d.live = live
                 if depth < k["max_depth"] and rng.random() < 0.4:
@@ -336,7 +353,7 @@ class Gen:
                 st.block = self.gen_block(sc, depth + 1, rng.randrange(1, 5), in_macro, in_loop, in_import, live, in_if)
                 out.append(st)
             elif r < 0.70 and not in_loop:
-                nm = self.fresh_name(scope)
+                nm = self.fresh_name(scope, prefer_shadow=not live and DEAD_DEFS_INVISIBLE)
                 d = Def(nm, "const", scope)
                 d.live = live
                 d.in_if = in_if
@@ -657,5 +674,7 @@ DEFAULT_KNOBS = {
 
 
 def generate(rng, knobs=None):
+    global DEAD_DEFS_INVISIBLE
+    DEAD_DEFS_INVISIBLE = bool((knobs or {}).get("dead_defs_invisible", False))
     g = Gen(rng, knobs)
     return g.gen_program()
